@@ -11,9 +11,14 @@ for f in sorted(glob.glob(os.path.join(V, "seeded", "*", "meta.json"))):
         txt = [l.strip() for l in open(os.path.join(d, "notes.md")) if l.strip() and not l.startswith("#")]
         what = (txt[0] if txt else "")[:230]
     caught = ", ".join(m.get("caught_by") or []) or "**missed**"
+    v = m.get("verdict") or ""
+    if v.startswith("retired"):
+        caught = "retired (made equivalent by a later fix, see meta.json)"
+    elif v.startswith("not counted") and not m.get("caught_by"):
+        caught = "not counted (inside the statement's ambiguity, see meta.json)"
     hist = " (after strengthening the generator; missed at first)" if m.get("history") else ""
     rows.append("| %s | %s | %s | demo %s, suite %s | %s%s |" % (m["name"], m["property"], what.replace("|", "/"),
-                "ok" if m.get("demo_ok") else "NOT CONFIRMED", "green" if m.get("suite_ok") else "?", caught, hist))
+                "ok" if m.get("demo_ok") else ("was ok before the later fix" if v else "NOT CONFIRMED"), "green" if m.get("suite_ok") else "?", caught, hist))
 table = "| change | property | what it does | confirmed | caught by (quick tier) |\n|----|----|----|----|----|\n" + "\n".join(rows)
 p = os.path.join(V, "DESIGN.md")
 s = open(p).read()
